@@ -304,4 +304,79 @@ theorem cfgAfter_pop (u : Nat → R) : ∀ (l : List (Op R)) (s : Cfg R), (∀ o
     show (cfgAfter u (apply u s a).1 l).pop = s.pop
     rw [ih _ (fun op hop => h op (by simp [hop])), apply_pop u s a (h a (by simp))]
 
+/-! ### a `Set*` never decorates: the decoration is deferred to the next `Step` -/
+
+theorem own_ndec (u : Nat → R) (s : Cfg R) (a : Op R) : (own u s a).1.ndec = s.ndec := by
+  cases a <;> rfl
+
+theorem apply_ndec (u : Nat → R) (s : Cfg R) (op : Op R) : (apply u s op).1.ndec = s.ndec := by
+  unfold apply
+  split
+  · rfl
+  · split
+    · exact own_ndec u s op
+    · exact own_ndec u s op
+
+theorem cfgAfter_ndec (u : Nat → R) : ∀ (l : List (Op R)) (s : Cfg R), (cfgAfter u s l).ndec = s.ndec := by
+  intro l
+  induction l with
+  | nil => intro s; rfl
+  | cons a l ih =>
+    intro s
+    show (cfgAfter u (apply u s a).1 l).ndec = s.ndec
+    rw [ih, apply_ndec]
+
+theorem cfgAfter_kind (u : Nat → R) : ∀ (l : List (Op R)) (s : Cfg R), (cfgAfter u s l).kind = s.kind := by
+  intro l
+  induction l with
+  | nil => intro s; rfl
+  | cons a l ih =>
+    intro s
+    show (cfgAfter u (apply u s a).1 l).kind = s.kind
+    rw [ih, apply_kind]
+
+/-- no `Set*` makes a solver live -/
+theorem own_live (u : Nat → R) (s : Cfg R) (a : Op R) (h : (own u s a).1.live = true) : s.live = true := by
+  cases a
+  case setObjective c =>
+    simp only [own] at h
+    split at h
+    · exact h
+    · cases h
+  all_goals exact h
+
+theorem apply_live (u : Nat → R) (s : Cfg R) (op : Op R) (h : (apply u s op).1.live = true) : s.live = true := by
+  unfold apply at h
+  split at h
+  · exact h
+  · split at h
+    · simp [Cfg.finalize, Cfg.finalizeWith] at h
+    · exact own_live u s op h
+
+theorem cfgAfter_live (u : Nat → R) : ∀ (l : List (Op R)) (s : Cfg R), (cfgAfter u s l).live = true → s.live = true := by
+  intro l
+  induction l with
+  | nil => intro s h; exact h
+  | cons a l ih =>
+    intro s h
+    exact apply_live u s a (ih _ h)
+
+/-- a finalising `Set*` that does not raise leaves the solver not live: the next `Step` has to re-decorate -/
+theorem apply_fin_live (u : Nat → R) (s : Cfg R) (op : Op R) (hb : blocked s.kind op = false)
+    (hf : fin s.kind op = true) (hr : (apply u s op).2 = false) : (apply u s op).1.live = false := by
+  unfold apply at hr ⊢
+  rw [if_neg (by simp [hb])] at hr ⊢
+  by_cases h : (fin s.kind op && !(own u s op).2) = true
+  · rw [if_pos h]; rfl
+  · rw [if_neg h] at hr
+    simp [hf, hr] at h
+
+theorem bootstrap_ndec (u : Nat → R) (s : Cfg R) (c : Nat) :
+    (bootstrap u s c).ndec = s.ndec + (if (decide (s.cost.raw = some c) && s.live) = true then 0 else 1) := by
+  unfold bootstrap
+  split
+  · rfl
+  · show (own u s (.setObjective c)).1.ndec + 1 = s.ndec + 1
+    rw [own_ndec]
+
 end MysticVerif.Config
